@@ -14,8 +14,8 @@ STEERING = ("VERS", "WRAP", "NULL", "DLM")
 STD_KEYS = ("Version", "Well", "Curves", "Parameter", "Other")
 
 TITLES = {
-    "V": ["~V", "~Version", "~VERSION INFORMATION", "~Version Information Section", "~v", "~version information", "~V ------"],
-    "W": ["~W", "~Well", "~WELL INFORMATION BLOCK", "~Well Information", "~w", "~well information", "~W ------ well"],
+    "V": ["~V", "~Version", "~VERSION INFORMATION", "~Version Information Section", "~v", "~version information", "~V ------", "~VERSION_INFORMATION"],
+    "W": ["~W", "~Well", "~WELL INFORMATION BLOCK", "~Well Information", "~w", "~well information", "~W ------ well", "~Well_Information_Block"],
     "C": ["~C", "~Curve", "~CURVE INFORMATION", "~Curve Information Block", "~c", "~curve information", "~C ---- curves"],
     "P": ["~P", "~Parameter", "~PARAMETER INFORMATION", "~Params", "~p", "~parameter information block", "~P ---- params"],
     "O": ["~O", "~Other", "~OTHER INFORMATION", "~Other Information Section", "~o", "~other", "~O ---- remarks"],
